@@ -78,12 +78,19 @@ def _read(self, op):
             else: raise ValueError(how)
         elif kind == 'bykey':
             ent = op['ent']; cls = self.cls[ent]
-            key = op['key']
+            mkey = {}; key = {}
+            for n, v in op['key'].items():
+                if isinstance(v, dict) and 'ref' in v:
+                    # lookup by a reference value: the related object itself is the argument (it may be new and unflushed)
+                    if v['ref'] not in w.objs: return 'skipped_dead_target'
+                    mkey[n] = v['ref']; key[n] = self.obj(v['ref'])
+                else: mkey[n] = key[n] = v
+            mark = self.rec.mark()
             def matches():
                 out = set()
                 for cand in self.working.of_entity(ent):
                     co = self.working.objs[cand]
-                    if all(co.vals.get(n) == v for n, v in key.items()): out.add(cand)
+                    if all(co.vals.get(n) == v for n, v in mkey.items()): out.add(cand)
                 return out
             how = op['how']
             if how == 'get':
